@@ -14,3 +14,5 @@ open Fzf.Props.C09
 #print axioms C09_constrain_is_source
 #print axioms C09_hidden_input_keeps_query
 #print axioms C09_cursor_on_screen
+#print axioms C09_reload_drops_selection
+#print axioms C09_query_edit_keeps_selection
